@@ -244,9 +244,11 @@ func methodName(op pmap.Op) string {
 func (h *hist) record(op pmap.Op, got pmap.Result) {
 	h.nops++
 	h.hash = vlib.Mix(h.hash ^ vlib.HashStr(op.String()))
-	if len(h.trace) < 6000 {
-		h.trace = append(h.trace, op.String()+" -> "+got.String())
+	if len(h.trace) >= 6000 {
+		// long (size-class) histories: keep the most recent operations for the replay detail
+		h.trace = append(h.trace[:0], h.trace[3000:]...)
 	}
+	h.trace = append(h.trace, op.String()+" -> "+got.String())
 }
 
 // step performs one operation of the history on the model and on the real structure.
@@ -1196,6 +1198,20 @@ func main() {
 			guardCase(c, section, fmt.Sprintf("%s#%d", section, i), func() { runHistory(c, d, section, i, r) })
 		})
 	}
+	// whole-structure operations at every table-size class (sizeclass.go)
+	perSC := c.N(160, 1600)
+	for _, d := range pmap.Types {
+		d := d
+		section := "sizeclass-" + d.Name
+		c.Cases(section, perSC, func(i int, r *vlib.Rand) {
+			if hungTypes[d.Name] {
+				c.Eval(-1)
+				c.Count("histories_skipped_after_hang", 1)
+				return
+			}
+			guardCase(c, section, fmt.Sprintf("%s#%d", section, i), func() { runSizeClass(c, d, section, i, r) })
+		})
+	}
 	c.Cases("serial", c.N(1500, 30000), func(i int, r *vlib.Rand) {
 		if hungTypes[pmap.TIntIntMap] {
 			c.Eval(-1)
@@ -1226,6 +1242,7 @@ func main() {
 	c.Floor("growths_with_old_chain_ge2_IntSet", int64(per)/20/sh, c.Counter("growths_with_old_chain_ge2_IntSet"))
 	c.Floor("growths_with_old_chain_ge2_StringSet", int64(per)/10/sh, c.Counter("growths_with_old_chain_ge2_StringSet"))
 	c.Floor("serialization_round_trips", int64(c.N(1500, 30000))/10/sh, c.Counter("serialization_round_trips"))
+	scFloors(c, perSC)
 	c.Finish()
 	fmt.Println("done")
 }
